@@ -141,8 +141,12 @@ func runProp(w *World, prop, tier string, ff *FindingsFile) *propResult {
 			}()
 			r.Run(c)
 		}()
-		if len(c.Obls) < r.Floor {
-			c.record("floor", "floor", "-", fmt.Sprintf("rule matched %d instances, floor confirmed by hand is %d: anchors moved or rule became vacuous", len(c.Obls), r.Floor))
+		// non-vacuity: the rule must still match a substantial part of what was confirmed by hand. The
+		// threshold is 2/3 of the confirmed count (rounded up), not the count itself: merging two sites into a
+		// shared helper or similar tidying legitimately lowers the number of instances, whereas a rule that
+		// lost its anchors drops to (near) zero. Individual mechanisms have their own "present" obligations.
+		if min := (2*r.Floor + 2) / 3; len(c.Obls) < min {
+			c.record("floor", "floor", "-", fmt.Sprintf("rule matched %d instances, fewer than 2/3 of the %d confirmed by hand: anchors moved or rule became vacuous", len(c.Obls), r.Floor))
 		}
 		res.rulesRun = append(res.rulesRun, fmt.Sprintf("%s.%s[%s] %s: %d obligations", r.Prop, r.ID, r.Kind, r.Desc, len(c.Obls)))
 		res.obls = append(res.obls, c.Obls...)
